@@ -438,7 +438,9 @@ def main():
                 log(f"BROKEN (vacuous): {h['full']}: {detail}")
                 exit_code = max(exit_code, 3)
             elif verdict == "inconclusive":
-                if h["edge"]:
+                # thorough-only instances are attempts beyond the quick bound: one that does not finish within its cap
+                # is listed as inconclusive and excluded from the claim (it never counts as a pass)
+                if h["edge"] or (h["tier"] == "thorough" and "unknown_failure" in str(detail)):
                     log(f"inconclusive (edge instance, not part of the claim): {h['full']}: {detail}")
                 else:
                     log(f"BROKEN (inconclusive): {h['full']}: {detail}")
